@@ -202,6 +202,48 @@ fn lines_scaled(rng: &mut Rng) {
     emit_oracle_only("fit.line_scaled", &Tok::new(), &Tok::new(), &v);
 }
 
+/// The outlier-rejecting mode of the circle fit (`BestFit::Gaussian(k)`: samples further than k standard
+/// deviations from the mean residual get weight 0) on EXACT samples: there are no outliers, so the generating
+/// circle is recovered as in the plain mode.  Includes the structured case in which every residual of the guess
+/// is the same number (lattice points of an integer circle and a concentric guess of the wrong radius), where
+/// the standard deviation of the residuals is exactly 0.
+fn circles_gaussian(rng: &mut Rng) {
+    let lattice = rng.chance(0.5);
+    let mut v = Verdict::new();
+    let (c, pts, g) = if lattice {
+        let k = *rng.pick(&[1.0, 2.0, 0.5, 4.0]);
+        let (cx, cy) = (rng.int(-6, 6) as f64, rng.int(-6, 6) as f64);
+        let on: [(f64, f64); 12] = [(5., 0.), (-5., 0.), (0., 5.), (0., -5.), (3., 4.), (-3., 4.), (3., -4.), (-3., -4.), (4., 3.), (-4., 3.), (4., -3.), (-4., -3.)];
+        let mut idx: Vec<usize> = (0..12).collect();
+        rng.shuffle(&mut idx);
+        let m = rng.int(6, 12) as usize;
+        let pts: Vec<Point2> = idx[..m].iter().map(|i| Point2::new(cx + k * on[*i].0, cy + k * on[*i].1)).collect();
+        let c = Circle2::new(cx, cy, 5.0 * k);
+        // a concentric guess of the wrong radius (dyadic factor: every residual is the same number), or a nearby one
+        let g = if rng.chance(0.7) { Circle2::new(cx, cy, 5.0 * k * *rng.pick(&[0.75, 0.875, 1.125, 1.25, 1.5])) } else { Circle2::new(cx + k * rng.range(-1.0, 1.0), cy + k * rng.range(-1.0, 1.0), 5.0 * k * rng.range(0.8, 1.2)) };
+        (c, pts, g)
+    } else {
+        let c = Circle2::new(rng.range(-5.0, 5.0), rng.range(-5.0, 5.0), rng.range(0.5, 5.0));
+        let a0 = rng.range(0.0, 2.0 * PI);
+        let extent = rng.range(PI, 2.0 * PI);
+        let n = rng.int(8, 40) as usize;
+        let pts: Vec<Point2> = (0..n).map(|k| { let a = a0 + extent * k as f64 / (n - 1) as f64; Point2::new(c.center.x + c.r() * a.cos(), c.center.y + c.r() * a.sin()) }).collect();
+        let g = Circle2::new(c.center.x + c.r() * rng.range(-0.2, 0.2), c.center.y + c.r() * rng.range(-0.2, 0.2), c.r() * rng.range(0.8, 1.2));
+        (c, pts, g)
+    };
+    let sigma = *rng.pick(&[2.0, 3.0, 4.0]);
+    match guarded(|| Circle2::fitting_circle(&pts, &g, BestFit::Gaussian(sigma))) {
+        Err(e) => v.require(false, "circle_fit.panics", || e.clone()),
+        Ok(Err(e)) => v.require(false, "circle_fit.fails_from_nearby_guess", || e.to_string()),
+        Ok(Ok(f)) => {
+            let tol = 1e-5 * c.r();
+            let what = if lattice { "circle_fit.outlier_mode_recovers_exact_circle_when_all_residuals_are_equal" } else { "circle_fit.outlier_mode_recovers_exact_circle" };
+            v.require((f.center - c.center).norm() <= tol && (f.r() - c.r()).abs() <= tol, what, || format!("sigma={sigma} guess {:?} r={}: {:?} r={} vs {:?} r={}", g.center, g.r(), f.center, f.r(), c.center, c.r()));
+        }
+    }
+    emit_oracle_only("fit.circle_gaussian", &Tok::new(), &Tok::new(), &v);
+}
+
 fn circles(rng: &mut Rng) {
     let c = Circle2::new(rng.range(-5.0, 5.0), rng.range(-5.0, 5.0), rng.range(0.5, 5.0));
     let a0 = rng.range(0.0, 2.0 * PI);
@@ -293,5 +335,6 @@ pub fn run(rng: &mut Rng, n: usize) {
             case("fit.case", "c09.library_call_panics", || lines_scaled(rng));
         }
         case("fit.case", "c09.library_call_panics", || circles(rng));
+        case("fit.case", "c09.library_call_panics", || circles_gaussian(rng));
     }
 }
